@@ -182,10 +182,20 @@ def value_ctors(b, read, names):
            "new_bool": "r == (SourcedValue{v: Value::Bool(b), source: None})",
            "new_int": "r == (SourcedValue{v: Value::Int(n), source: None})",
            "new_str": "r == (SourcedValue{v: Value::Str(s), source: None})",
-           "new_list": "r == (SourcedValue{v: Value::List(Arc(Mutex(list))), source: None})"}
+           "new_list": "r == (SourcedValue{v: Value::List(Arc(Mutex(list))), source: None})",
+           "new_object": "r == (SourcedValue{v: Value::Object(Arc(Mutex(object))), source: None})",
+           "new_str_from_string": "r.source is None && (r.v matches Value::Str(bytes) && bytes@ == string_bytes(s@))",
+           "new_func": "r == (SourcedValue{v: Value::Func(Arc(Mutex(Func{name, args, collect_args, stmts, closure}))), source: None})"}
     out = []
     for n in names:
         t = copy_item(b, read, "src/eval/value.rs", "fn", n)
+        if n == "new_str_from_string":
+            # body is `s.into_bytes()` (UTF-8 bytes; outside Verus): kept as an external declaration
+            hdr, _body = _e.fn_header_body(t)
+            hdr, _ = _e.name_return(hdr.rstrip() + "\n")
+            out.append("#[verifier::external_body]\n" + hdr + f"    ensures {ens[n]},\n{{ unimplemented!() }}")
+            b.dropped.append("value::new_str_from_string body (`s.into_bytes()`): external, result = UTF-8 bytes of s (uninterpreted string_bytes)")
+            continue
         out.append(_e.annotate_fn(t, spec=f"\n    ensures {ens[n]},\n"))
     return "pub mod value {\n    use super::*;\n// ---- verbatim from src/eval/value.rs\n" + "\n".join(out) + "\n}"
 
